@@ -20,6 +20,8 @@ RULE = (
     "equals the snapshot taken at import. Non-trivial = history with two activations carrying "
     "different additions, or an activation followed by a direct construction; distinct = "
     "distinct histories."
+    ' Also: protocol-4 qualified names and Python-2 spellings (never permitted), and the other'
+    ' guard (always_check_safety) armed between activations.'
 )
 ASSUMPTIONS = [
     "with no environment active the pickle module is the stock one (probes through it succeed)",
